@@ -112,7 +112,9 @@ fn gen(rng: &mut Rng, idx: u64, tier: Tier) -> Case {
                 if ac.lon >= 180.0 { ac.lon -= 360.0; }
                 if ac.lon < -180.0 { ac.lon += 360.0; }
                 let (la, lo) = modes::cpr_encode(ac.lat, ac.lon, odd);
-                let me = modes::me_airborne_pos(rng.range(9, 18) as u64, rng.below(4), rng.below(2), modes::ac12_q1(ac.alt_n), rng.below(2), odd as u64, la, lo);
+                // now and then the barometric altitude is below 0 ft (codes for -1000..-25 ft) or not available
+                let alt_code = if rng.chance(0.06) { if rng.chance(0.3) { 0 } else { modes::ac12_q1(rng.range(0, 39) as u64) } } else { modes::ac12_q1(ac.alt_n) };
+                let me = modes::me_airborne_pos(rng.range(9, 18) as u64, rng.below(4), rng.below(2), alt_code, rng.below(2), odd as u64, la, lo);
                 let f = modes::df17_18(17, ac.icao, ac.ca, me);
                 truth.insert(modes::to_hex(&f), (ac.lat, ac.lon));
                 events.push((t, f, format!("airpos-{}", if odd { "odd" } else { "even" })));
